@@ -466,7 +466,7 @@ pub fn defs() -> Vec<PropDef> {
         PropDef {
             id: "C01",
             level: "exploration",
-            rule: "proptest-generated 2-3 thread programs over get/get_key_value/contains_key/insert/try_insert/remove/remove_entry/compute_if_present on 1-3 hot keys (initial states: near the resize threshold, 7/8-node list bin, tree bin, empty, uninitialised table), each executed under the serialising scheduler for all 0- and 1-preemption schedules (sampled above 400), a budgeted set of 2-preemption schedules and random sparse tapes; oracle = per-key Wing-Gong linearizability of the recorded history incl. a final read of every key, plus quiescent agreement; evaluations = (program, schedule) executions; non-trivial = two operations of different threads on one key overlapped with at least one write, or the execution crossed a resize or tree conversion; distinct = hash(program) x hash(preemptions performed)",
+            rule: "proptest-generated 2-3 thread programs over get/get_key_value/contains_key/insert/try_insert/remove/remove_entry/compute_if_present on 1-3 hot keys (initial states: near the resize threshold, 7/8-node list bin, tree bin, empty, uninitialised table), each executed under the serialising scheduler for all 0- and 1-preemption schedules (sampled above 400), a budgeted set of 2-preemption schedules and random sparse tapes; plus long programs (4-8 threads x 6-12 ops, random tapes only) and 2-3 thread HashSet programs (insert/remove/take/contains/get/retain through the guard, pin() and with_guard() facades; cell value = stored key instance); oracle = per-key Wing-Gong linearizability of the recorded history incl. a final read of every key, plus quiescent agreement; evaluations = (program, schedule) executions; non-trivial = two operations of different threads on one key overlapped with at least one write, or the execution crossed a resize or tree conversion; distinct = hash(program) x hash(preemptions performed)",
             assumptions: &["executions are sequentially consistent interleavings at the granularity of flurry's instrumented atomic operations and lock acquisitions; seize and parking_lot internals run atomically between two such points", "schedules with more than two preemptions are only sampled"],
             run_shard: c01_shard,
             replay: c01_replay,
